@@ -9,6 +9,7 @@ import (
 	"time"
 )
 
+//go:norace
 func callerPC(skip int) uintptr {
 	var pcs [1]uintptr
 	if runtime.Callers(skip+2, pcs[:]) == 0 {
@@ -18,6 +19,8 @@ func callerPC(skip int) uintptr {
 }
 
 // Go starts fn as a new task (or a plain goroutine when inactive).
+//
+//go:norace
 func Go(name string, fn func()) {
 	if !Active() {
 		go fn()
@@ -28,6 +31,8 @@ func Go(name string, fn func()) {
 
 // Yield is a scheduling point before a visible operation that is always
 // enabled. obj identifies the object it touches (0: none).
+//
+//go:norace
 func Yield(site string, obj uintptr) {
 	if !Active() {
 		return
@@ -36,6 +41,8 @@ func Yield(site string, obj uintptr) {
 }
 
 // Yield2 is a scheduling point before an operation touching two objects.
+//
+//go:norace
 func Yield2(site string, obj, obj2 uintptr) {
 	if !Active() {
 		return
@@ -48,6 +55,8 @@ func Yield2(site string, obj, obj2 uintptr) {
 const CtxObj = 2
 
 // YieldPC is Yield with the site taken from the caller's caller.
+//
+//go:norace
 func YieldPC(obj uintptr) {
 	if !Active() {
 		return
@@ -57,6 +66,8 @@ func YieldPC(obj uintptr) {
 
 // Choose is an environment choice point with n answers; 0 is the default.
 // When dev is true every other answer costs one deviation.
+//
+//go:norace
 func Choose(site string, n int, dev bool) int {
 	if !Active() || n <= 1 {
 		return 0
@@ -67,6 +78,8 @@ func Choose(site string, n int, dev bool) int {
 
 // WaitFor blocks the task until cond holds. cond is evaluated by the
 // scheduler while every task is parked.
+//
+//go:norace
 func WaitFor(site string, obj uintptr, cond func() bool) {
 	if !Active() {
 		panic("vsched.WaitFor outside the scheduler: " + site)
@@ -75,16 +88,22 @@ func WaitFor(site string, obj uintptr, cond func() bool) {
 }
 
 // Lock is the scheduling point of Mutex.Lock.
+//
+//go:norace
 func Lock(m *MutexState, rlock bool) {
 	S.park(&Op{Kind: OpLock, PC: callerPC(1), Mu: m, RLock: rlock})
 }
 
 // OnceEnter is the scheduling point of Once.Do.
+//
+//go:norace
 func OnceEnter(o *OnceState) {
 	S.park(&Op{Kind: OpOnce, PC: callerPC(1), Once: o})
 }
 
 // Logf appends to the execution's observation log.
+//
+//go:norace
 func Logf(format string, a ...any) {
 	if S != nil && !S.killing {
 		S.exec.Log = append(S.exec.Log, fmt.Sprintf(format, a...))
@@ -92,6 +111,8 @@ func Logf(format string, a ...any) {
 }
 
 // TaskName returns the running task's name.
+//
+//go:norace
 func TaskName() string {
 	if S != nil && S.cur != nil {
 		return S.cur.Name
@@ -101,6 +122,7 @@ func TaskName() string {
 
 // ---- channels ----
 
+//go:norace
 func chanOp(site string, cases []Case, hasDefault bool) (int, reflect.Value, bool) {
 	s := S
 	g, t := s.park(&Op{Kind: OpChan, Site: site, Cases: cases, HasDefault: hasDefault})
@@ -122,8 +144,11 @@ func chanOp(site string, cases []Case, hasDefault bool) (int, reflect.Value, boo
 }
 
 // RecvCase / SendCase build select cases.
+//
+//go:norace
 func RecvCase(ch any) Case { return Case{Ch: reflect.ValueOf(ch)} }
 
+//go:norace
 func SendCase(ch any, v any) Case {
 	cv := reflect.ValueOf(ch)
 	var vv reflect.Value
@@ -143,6 +168,8 @@ func SendCase(ch any, v any) Case {
 
 // Select performs one communication among cases; it returns the index of
 // the case that fired (-1: default), and for a receive the value and ok.
+//
+//go:norace
 func Select(site string, hasDefault bool, cases ...Case) (int, any, bool) {
 	if !Active() {
 		rc := make([]reflect.SelectCase, 0, len(cases)+1)
@@ -173,6 +200,8 @@ func Select(site string, hasDefault bool, cases ...Case) (int, any, bool) {
 }
 
 // As converts the value received by Select to the element type of ch.
+//
+//go:norace
 func As[T any](ch <-chan T, v any) T {
 	if v == nil {
 		var z T
@@ -182,9 +211,13 @@ func As[T any](ch <-chan T, v any) T {
 }
 
 // ValFor types a send value by the channel it is sent on.
+//
+//go:norace
 func ValFor[T any](ch chan<- T, v T) T { return v }
 
 // Recv is `<-ch`.
+//
+//go:norace
 func Recv[T any](site string, ch <-chan T) T {
 	if !Active() {
 		return <-ch
@@ -193,6 +226,7 @@ func Recv[T any](site string, ch <-chan T) T {
 	return conv[T](rv)
 }
 
+//go:norace
 func conv[T any](rv reflect.Value) T {
 	var z T
 	if rv.IsValid() {
@@ -202,6 +236,8 @@ func conv[T any](rv reflect.Value) T {
 }
 
 // Recv2 is `v, ok := <-ch`.
+//
+//go:norace
 func Recv2[T any](site string, ch <-chan T) (T, bool) {
 	if !Active() {
 		v, ok := <-ch
@@ -212,6 +248,8 @@ func Recv2[T any](site string, ch <-chan T) (T, bool) {
 }
 
 // Send is `ch <- v`.
+//
+//go:norace
 func Send[T any](site string, ch chan<- T, v T) {
 	if !Active() {
 		ch <- v
@@ -221,6 +259,8 @@ func Send[T any](site string, ch chan<- T, v T) {
 }
 
 // CloseChan is `close(ch)`.
+//
+//go:norace
 func CloseChan(site string, ch any) {
 	cv := reflect.ValueOf(ch)
 	if Active() {
@@ -228,10 +268,7 @@ func CloseChan(site string, ch any) {
 		if cv.IsValid() && !cv.IsNil() {
 			id = cv.Pointer()
 		}
-		S.park(&Op{Kind: OpYield, Site: site, Obj: id})
-		if id != 0 {
-			S.closedCh[id] = cv
-		}
+		S.park(&Op{Kind: OpYield, Site: site, Obj: id, CloseCh: cv})
 	}
 	cv.Close()
 }
@@ -239,6 +276,8 @@ func CloseChan(site string, ch any) {
 // ---- context ----
 
 // WithCancel is context.WithCancel whose CancelFunc is a scheduling point.
+//
+//go:norace
 func WithCancel(parent context.Context) (context.Context, context.CancelFunc) {
 	ctx, cancel := context.WithCancel(parent)
 	if !Active() {
@@ -254,6 +293,8 @@ func WithCancel(parent context.Context) (context.Context, context.CancelFunc) {
 
 // WithTimeout never fires under the scheduler: time is not a source of
 // nondeterminism inside an execution.
+//
+//go:norace
 func WithTimeout(parent context.Context, d time.Duration) (context.Context, context.CancelFunc) {
 	if !Active() {
 		return context.WithTimeout(parent, d)
@@ -261,6 +302,7 @@ func WithTimeout(parent context.Context, d time.Duration) (context.Context, cont
 	return WithCancel(parent)
 }
 
+//go:norace
 func WithDeadline(parent context.Context, d time.Time) (context.Context, context.CancelFunc) {
 	if !Active() {
 		return context.WithDeadline(parent, d)
@@ -272,6 +314,8 @@ func WithDeadline(parent context.Context, d time.Time) (context.Context, context
 
 // MapKeys returns the keys of m in a deterministic order, so that ranging
 // over a map is not a source of nondeterminism.
+//
+//go:norace
 func MapKeys[M ~map[K]V, K comparable, V any](m M) []K {
 	keys := make([]K, 0, len(m))
 	for k := range m {
@@ -283,6 +327,8 @@ func MapKeys[M ~map[K]V, K comparable, V any](m M) []K {
 
 // SortAny sorts values of any comparable type: numerically for integers,
 // lexically for strings, by formatted value otherwise.
+//
+//go:norace
 func SortAny[K any](keys []K) {
 	if len(keys) < 2 {
 		return
